@@ -40,7 +40,7 @@ from .C02 import MemoPM, NS, explore
 
 MOD = "harness.C53"
 EPS_MAX = Fraction(1, 10**6)
-RATIOS = [1.0, 2.0, 0.5]  # matching ratios k_q (exact binary fractions); walls w_q = k_q^2 * m_q^2
+RATIOS = [2.0, 4.0, 2.0]  # matching ratios k_q (exact binary fractions, all > 1: the a_s matching is non-trivial from NLO on and the decoupling logs of neighbouring walls cannot cancel); walls w_q = k_q^2 * m_q^2
 
 
 class Squarable:
@@ -87,10 +87,15 @@ def load_world():
 
         def __init__(self, **kw):
             w.calls.couplings_kw.append(kw)
+            # the couplings' own flavour-number landscape, built as the real __init__ builds it
+            scales = [m_ * r for m_, r in zip(list(kw["masses"]), list(kw["thresholds_ratios"]))]
+            self.atlas = w.mat.Atlas(scales, (kw["couplings"].ref[0] ** 2, kw["couplings"].ref[1]))
 
         def a(self, scale_to, nf_to=None):
             n = len(w.calls.a)
-            w.calls.a.append((scale_to, nf_to))
+            # the flavour number the coupling is evaluated in: the requested one, else the default flow at that scale (real Atlas.normalize)
+            eff = self.atlas.normalize((scale_to, nf_to))[1]
+            w.calls.a.append((scale_to, nf_to, eff))
             return (SR.var("as_%d" % n), SR.var("aem_%d" % n))
 
         def a_s(self, scale_to, nf_to=None):
@@ -191,7 +196,15 @@ def make_inputs(w, nf0, nff, sv, order):
         assume(v, ">0")
     R.finite_below_inf(mu0, t, *W)
     X2.log()  # the atom log(xif^2) gets its name before any fork
-    theory = NS(order=order, xif=Squarable(X2), couplings=NS(), n3lo_ad_variation=(0,) * 7, use_fhmruvv=True, matching_order=(order[0] - 1, 0),
+    # lemmas (implied by the assumptions above, stated to spare the solver non-linear reasoning): the couplings' walls under
+    # exponentiated scale variation, w_q * xif^2, are ordered like the w_q
+    assume(X2 * (W[1] - W[0]), ">0")
+    assume(X2 * (W[2] - W[1]), ">0")
+    R.finite_below_inf(t * X2, mu0 * X2, *[x * X2 for x in W])  # shifted renormalization scales / couplings' walls are finite too
+    Qref2 = SR.var("Qref2")
+    assume(Qref2, ">0")
+    R.finite_below_inf(Qref2)
+    theory = NS(order=order, xif=Squarable(X2), couplings=NS(ref=(Squarable(Qref2), 5)), n3lo_ad_variation=(0,) * 7, use_fhmruvv=True, matching_order=(order[0] - 1, 0),
                 heavy=NS(masses=[NS(value=Squarable(m_)) for m_ in Ms], masses_scheme=w.POLE, matching_ratios=list(RATIOS)))
     operator = NS(mu20=mu0, init=(None, nf0), evolgrid=[(t, nff)], xgrid=NS(log=True, raw=np.array([0.5, 1.0]), size=2),
                   configs=NS(evolution_method=w.METHOD, ev_op_iterations=1, ev_op_max_order=(10, 0), polarized=False, time_like=False,
@@ -232,7 +245,8 @@ def case_cont(log, nf0, nff, sv, order=(1, 0)):
         D.target = z3_of(final.target)
         D.nf = final.nf
         D.cliff = bool(final.cliff)
-        D.a_calls = [(z3_of(s), n) for s, n in w.calls.a]
+        D.a_calls = [(z3_of(s), (n, eff)) for s, n, eff in w.calls.a]
+        D.order = tuple(order)
         D.skipped = not w.calls.quad
         D.classes = {}
         D.factor = False
@@ -304,7 +318,11 @@ def _cont(Di, Dj, sub, eps):
         g.append(sub(Dj.q2[1]) == Di.q2[1] * (1 + eps))
         (a0, n0), (a1, n1) = Di.a_calls
         (b0, m0), (b1, m1) = Dj.a_calls
-        g.append(z3.BoolVal(n0 == m0 and n1 == m1))
+        # (requested nf, nf the coupling is actually evaluated in); at LO a_s is continuous across the matching scales, so only
+        # from NLO on the flavour number of the coupling is part of the continuity statement
+        if Di.order[0] >= 2 and not (n0 == m0 and n1 == m1):
+            return z3.And(g + [z3.BoolVal(False)]), ("the coupling is evaluated with a different number of flavours: (requested, effective) = %r, %r at t "
+                                                      "vs %r, %r at t(1+eps)" % (n0, n1, m0, m1))
         g.append(a0 == sub(b0))
         g.append(sub(b1) == a1 * (1 + eps))
         return z3.And(g), why
@@ -400,7 +418,7 @@ def _sampler_for(nf0, nff):
         while len(set(Ms)) < 3:
             Ms = sorted(rnd(rng, 2, 40, 1) for _ in range(3))
         W = sorted([Ms[0], 4 * Ms[1], 100 * Ms[2]])
-        M4, M5, M6 = W[0], W[1] / 4, W[2] * 4
+        M4, M5, M6 = (W[i] / Fraction(RATIOS[i]) ** 2 for i in range(3))
         mu0 = rng.choice([rnd(rng, 2, 9, 4), W[0], W[1], rnd(rng, 2, 5000, 4)])
         if nf0 is None or nff is None or nf0 == nff:
             fo = mu0
@@ -547,8 +565,8 @@ def main():
                        "in their arguments is not part of the claim.")
     chk.bounds = [
         "nf0 in {3,4,5,6} x nff in {3,4,5,6,None}%s; scale-variation mode in {unvaried, exponentiated, expanded}; order %s"
-        % (" plus nf0=None" if thorough else "", "(1,0),(2,0),(3,0)" if thorough else "(1,0)"),
-        "walls w_q = k_q^2 m_q^2 with k = (1, 2, 1/2) and m_q^2 symbolic, strictly ordered; initial scale, target t, xif^2 > 0 symbolic reals; neighbour t(1+eps), 0<|eps|<=1e-6, same target nf",
+        % (" plus nf0=None" if thorough else "", "(1,0),(2,0),(3,0)" if thorough else "(1,0),(2,0)"),
+        "walls w_q = k_q^2 m_q^2 with k = (2, 4, 2) and m_q^2 symbolic, strictly ordered; initial scale, target t, xif^2 > 0 symbolic reals; neighbour t(1+eps), 0<|eps|<=1e-6, same target nf",
         "targets exactly on a matching scale (lower or upper nf) or on the initial scale are reached symbolically (equalities decided by the solver)",
     ]
     chk.out_of_claim = [
@@ -558,15 +576,17 @@ def main():
         "QED (order[1] > 0) kernels, polarized/time-like flags, coincident or unsorted matching scales",
     ]
     chk.stubs = [
-        "Couplings -> stub recording constructor arguments and every a(scale, nf_to) call; InterpolatorDispatcher -> 2-point stub",
+        "Couplings -> stub recording constructor arguments and every a(scale, nf_to) call together with the flavour number the coupling is evaluated in "
+        "(nf_to, or the default flow of the couplings' own Atlas, built from masses * thresholds_ratios as the real constructor does); InterpolatorDispatcher -> 2-point stub",
         "scipy.integrate.quad -> records the integrand (functools.partial of the real quad_ker_ad) and returns 0",
         "quad_ker module: anomalous dimensions, ns/singlet dispatchers, sv_expanded.*_variation, sv_exponentiated.gamma_variation, QuadKerBase -> symbolic probes (which gamma reaches "
         "the solver, whether the expanded factor multiplies the kernel)",
         "parts.physical.PhysicalOperator.ad_to_evol_map -> passthrough; EKO -> namespace with theory_card/operator_card",
         "theory.xif and heavy.masses[i].value are given by their squares (x ** 2 -> symbol); numpy.inf -> symbol INF above every finite scale; hash(symbolic scalar) = 0",
     ]
-    chk.assumptions = ["floats are read as exact reals"]
-    orders = [(1, 0), (2, 0), (3, 0)] if thorough else [(1, 0)]
+    chk.assumptions = ["floats are read as exact reals",
+                       "at LO a_s is continuous across the matching scales (trivial decoupling), so the flavour number the coupling is evaluated in is compared from NLO on"]
+    orders = [(1, 0), (2, 0), (3, 0)] if thorough else [(1, 0), (2, 0)]
     nf0s = (3, 4, 5, 6) + ((None,) if thorough else ())
     # expanded first (longest)
     for sv in ("expanded", "exponentiated", "unvaried"):
